@@ -397,13 +397,14 @@ def evaluate__lang(self: XPathFunction, context: ta.ContextType = None) -> bool:
                 return False
             lang = attr.strip()
 
-        if '-' in lang:
-            lang, _ = lang.split('-')
-
         value = self[0].evaluate()
         if not isinstance(value, str):
             return False
-        return lang.lower() == value.lower()
+
+        # The language matches if it is equal to the argument or if it has
+        # the argument as a prefix followed by '-' (ignoring case)
+        lang, value = lang.lower(), value.lower()
+        return lang == value or lang.startswith(value + '-')
 
 
 ###
